@@ -1,6 +1,6 @@
 (* C04 -- Index-derived region partitions cover every record exactly once. *)
 From Coq Require Import ZArith Arith List Bool Sorting.Sorted.
-From B2Z Require Import Model.Regions Proofs.RegionsProofs.
+From B2Z Require Import Model.Regions Proofs.RegionsProofs Proofs.RegionsRefine.
 Import ListNotations.
 Open Scope Z_scope.
 
@@ -21,6 +21,33 @@ Theorem regions_cover : forall ncontigs count_pos file c0 s0 cuts,
   = flat_map (fun c => of_contig c file) (seq 0 ncontigs).
 Proof. exact regions_cover. Qed.
 Print Assumptions regions_cover.
+
+(* _filter_empty_and_refine: moving each start to the first record the region yields and dropping
+   the regions that yield nothing does not change what the list yields (records sorted by position
+   inside each contig) *)
+Theorem refine_cover : forall file rs, file_ok file ->
+  flat_map (query file) (refine file rs) = flat_map (query file) rs.
+Proof. exact refine_cover. Qed.
+Print Assumptions refine_cover.
+
+(* The whole statement of C04 for the list partition_into_regions returns (loop + trailing contigs +
+   refine), for ANY strictly increasing cut list: every record exactly once, in file order contig by
+   contig; no empty region; strictly ordered, and inside a contig each region ends before the next
+   one starts (`before`); hence the boolean check_C04 -- what the correspondence run evaluates on
+   the real region list -- is true. *)
+Theorem partition_correct : forall ncontigs count_pos file c0 s0 cuts,
+  file_ok file -> cuts_inc ((c0, s0) :: cuts) ->
+  (last_contig ((c0, s0) :: cuts) < ncontigs)%nat ->
+  (forall x, In x file -> (fst x < ncontigs)%nat) ->
+  (forall x, In x file -> (c0 <= fst x)%nat /\ (fst x = c0 -> s0 <= snd x)) ->
+  (forall x, In x file -> (last_contig ((c0, s0) :: cuts) < fst x)%nat -> count_pos (fst x) = true) ->
+  let rs := refine file (regions ncontigs count_pos ((c0, s0) :: cuts)) in
+  flat_map (query file) rs = flat_map (fun c => of_contig c file) (seq 0 ncontigs) /\
+  (forall r, In r rs -> query file r <> []) /\
+  StronglySorted (fun a b => (rc a < rc b)%nat \/ (rc a = rc b /\ exists e, re a = Some e /\ e < lo b)) rs /\
+  check_C04 ncontigs file rs = true.
+Proof. exact partition_correct. Qed.
+Print Assumptions partition_correct.
 
 (* CSI: with the (fixed) lexicographic sort of (loffset, first locus) and htslib's monotone
    loffsets, the emitted positions of a contig are non-decreasing ... *)
